@@ -1,35 +1,80 @@
 #!/usr/bin/env python3
-"""Run all 16 quick checks against each seeded change (applied to /repo, always undone).
-usage: tools/seed_run.py <dir with seed subdirs> [seed ids...]   -> writes <dir>/<id>/checks.json"""
-import json, os, subprocess, sys, tempfile, shutil
+"""Run all 16 quick checks against each seeded change, each in its own scratch copy of /repo (outside /repo and /verif;
+/repo itself is never touched), several at a time.
+usage: tools/seed_run.py <dir with seed subdirs> [--jobs N] [seed ids...]   -> writes <dir>/<id>/checks.json"""
+import concurrent.futures, json, os, queue, shutil, subprocess, sys, tempfile
+VERIF = os.path.dirname(os.path.dirname(os.path.abspath(__file__)))
 ALLP = ['C01', 'C02', 'C03', 'C05', 'C06', 'C07', 'C08', 'C09', 'C10', 'C12', 'C13', 'C15', 'C16', 'C17', 'C18', 'C19']
+
+
 def sh(cmd, **kw):
     r = subprocess.run(cmd, stdout=subprocess.PIPE, stderr=subprocess.STDOUT, text=True, **kw)
     return r.returncode, r.stdout
-root = sys.argv[1]
-ids = sys.argv[2:] or sorted(d for d in os.listdir(root) if os.path.exists(os.path.join(root, d, 'patch.diff')))
-for sid in ids:
+
+
+def run_seed(root, sid, slot):
     d = os.path.join(root, sid)
-    rc, o = sh(['git', '-C', '/repo', 'status', '--porcelain'])
-    assert o.strip() == '', 'repo dirty: ' + o
+    scratch = tempfile.mkdtemp(prefix='kvseed-')
     res = {}
     try:
-        rc, o = sh(['git', '-C', '/repo', 'apply', '--whitespace=nowarn', os.path.join(d, 'patch.diff')])
+        for item in ('crates', 'Cargo.toml', 'Cargo.lock'):
+            src = os.path.join('/repo', item)
+            dst = os.path.join(scratch, item)
+            if os.path.isdir(src):
+                shutil.copytree(src, dst, ignore=shutil.ignore_patterns('target'))
+            else:
+                shutil.copy(src, dst)
+        sh(['git', 'init', '-q'], cwd=scratch)
+        rc, o = sh(['git', 'apply', '--whitespace=nowarn', os.path.join(d, 'patch.diff')], cwd=scratch)
         if rc != 0:
-            print(sid, 'PATCH DOES NOT APPLY', o[-200:]); continue
-        ev = tempfile.mkdtemp(prefix='seedev-')
+            return sid, None, 'PATCH DOES NOT APPLY ' + o[-200:]
+        ev = os.path.join(scratch, 'evidence')
+        env = dict(os.environ, KV_REPO=scratch, KV_EVIDENCE=ev, KV_KEEP_FACTS='1', KV_NO_SELFTEST='1',
+                   KV_TARGET=os.path.join(VERIF, '.cache', 'target-scratch-%d' % slot))
         for p in ALLP:
-            rc, o = sh(['/verif/kv', 'check', p], env=dict(os.environ, KV_EVIDENCE=ev))
+            rc, o = sh([os.path.join(VERIF, 'kv'), 'check', p], env=env)
             keys = [l.split('key=')[1].strip() for l in o.splitlines() if l.strip().startswith('rule=') and 'key=' in l]
             res[p] = {'exit': rc, 'keys': keys}
-        shutil.rmtree(ev, ignore_errors=True)
+            if rc not in (0, 1):
+                res[p]['tail'] = o[-300:]
     finally:
-        sh(['git', '-C', '/repo', 'checkout', '--', '.'])
-        sh(['git', '-C', '/repo', 'clean', '-fdq', 'crates'])
+        shutil.rmtree(scratch, ignore_errors=True)
     caught = sorted(p for p, r in res.items() if r['exit'] == 1)
     crashed = sorted(p for p, r in res.items() if r['exit'] not in (0, 1))
     json.dump({'checks': res, 'caught_by': caught, 'crashed': crashed}, open(os.path.join(d, 'checks.json'), 'w'), indent=1)
-    own = sid.split('-')[0]
-    print('%-6s %s caught_by=%s %s' % (sid, 'OWN ' if own in caught else ('NEIGH' if caught else 'MISS'), caught, ('CRASHED ' + str(crashed)) if crashed else ''), flush=True)
-    for p in caught:
-        print('        %s: %s' % (p, res[p]['keys'][:4]))
+    return sid, res, None
+
+
+def main():
+    args = sys.argv[1:]
+    jobs = 6
+    if '--jobs' in args:
+        i = args.index('--jobs'); jobs = int(args[i + 1]); del args[i:i + 2]
+    root = args[0]
+    ids = args[1:] or sorted(d for d in os.listdir(root) if os.path.exists(os.path.join(root, d, 'patch.diff')))
+    slots = queue.Queue()
+    for i in range(jobs):
+        slots.put(i)
+
+    def work(sid):
+        s = slots.get()
+        try:
+            return run_seed(root, sid, s)
+        finally:
+            slots.put(s)
+    with concurrent.futures.ThreadPoolExecutor(max_workers=jobs) as ex:
+        for sid, res, err in ex.map(work, ids):
+            if err:
+                print(sid, err, flush=True)
+                continue
+            caught = sorted(p for p, r in res.items() if r['exit'] == 1)
+            crashed = sorted(p for p, r in res.items() if r['exit'] not in (0, 1))
+            own = sid.split('-')[0]
+            print('%-6s %s caught_by=%s %s' % (sid, 'OWN ' if own in caught else ('NEIGH' if caught else 'MISS'), caught,
+                                               ('CRASHED ' + str(crashed)) if crashed else ''), flush=True)
+            for p in caught:
+                print('        %s: %s' % (p, res[p]['keys'][:4]))
+
+
+if __name__ == '__main__':
+    main()
